@@ -1,6 +1,7 @@
 import VaxisModel.Driver.Common
 import VaxisModel.Model.Emu
 import VaxisModel.Model.EmuIO
+import VaxisModel.Model.EmuDcs
 
 /-! Driver for C05 (stateful). Input lines `op<TAB>impl` where impl = `panic` | `hang` |
 `ev=N <snapshot>` (see Model/EmuIO.lean). Output `model-canon<TAB>impl-canon<TAB>verdict`:
@@ -28,9 +29,72 @@ def splitEv (impl : String) : Option (Nat × String) :=
     some (n, " ".intercalate rest)
   | [] => none
 
+/-- `dcs <final hex> <#intermediates> <#parameters> <data hex>`: the real DCS branch. The data is
+    UTF-8; the scanner works on code points, and every byte ≥ 0x80 belongs to a code point ≥ 0x80,
+    which falls in the scanner's "other" class exactly like the byte does — so scanning bytes is
+    scanning runes. -/
+def parseDcs? (op : String) : Option DcsInfo :=
+  match fields op with
+  | ["dcs", f, ni, np, d] => do
+    let fb ← hexBytes? f
+    let data ← hexBytes? d
+    match fb with
+    | [b] => some { final := b, nInter := ← ni.toNat?, nParams := ← np.toNat?, data := data }
+    | _ => none
+  | _ => none
+
+/-- impl of a dcs op: `ev=N <snapshot> tl=B gfx=K` → (rest, tl, gfx) -/
+def splitDcsImpl (impl : String) : Option (String × String × Nat) :=
+  match (impl.splitOn " ").reverse with
+  | g :: t :: rest => do
+    let gv ← (← kv? "gfx" g).toNat?
+    let tv ← kv? "tl" t
+    some (" ".intercalate rest.reverse, tv, gv)
+  | _ => none
+
+def stepDcs (st : St) (d : DcsInfo) (impl : String) : St × String :=
+  match st.model with
+  | none => (st, "no-state\tno-state\tbad-op")
+  | some e =>
+    let tlM := if sixelTooLarge d.data then "1" else "0"
+    if impl = "panic" ∨ impl = "hang" then
+      -- the decoder crashed: with the guard in place that is only legitimate for the model if the
+      -- payload passed the guard (hypothesis `DecoderTame` violated) — reported either way
+      let mstr := match dcs e { d with dec := .crash } with
+        | .error _ => impl
+        | .ok _ => "ok"
+      ({}, s!"{mstr}\t{impl}\tFAIL {impl}")
+    else
+      match splitDcsImpl impl with
+      | none => (st, "-\tunparsed\tFAIL unparsed implementation result")
+      | some (rest, tlI, gfx) =>
+        match splitEv rest with
+        | none => (st, "-\tunparsed\tFAIL unparsed implementation result")
+        | some (n, snap) =>
+          match parseSnap? snap with
+          | none => (st, "-\tunparsed\tFAIL unparsed implementation snapshot")
+          | some s =>
+            let dec : DecOutcome := if gfx = 0 then .error else .image
+            let mstr := match dcs e { d with dec := dec } with
+              | .error .oob => "panic"
+              | .error .hang => "hang"
+              | .ok e' =>
+                -- an image can only appear when the payload passed all guards
+                let gfxM := if d.final = 113 ∧ d.nInter = 0 ∧ d.nParams = 0 ∧ !sixelTooLarge d.data then gfx else 0
+                s!"ev=0 {renderSnap e' false} tl={tlM} gfx={gfxM}"
+            let istr := s!"ev={n} {renderSnap s.e false} tl={tlI} gfx={gfx}"
+            let (a, b) := diffTokens mstr istr
+            let verdict := match invViolation s with
+              | none => "ok"
+              | some why => "FAIL inv: " ++ why
+            ({ model := some { s.e with hasVx := false } }, s!"{a}\t{b}\t{verdict}")
+
 def step (st : St) (line : String) : St × String :=
   let (op, impl) := splitTab line
   if op.startsWith "#case" then ({}, "-\t-\t-") else
+  match parseDcs? op with
+  | some d => stepDcs st d impl
+  | none =>
   match parseOp? op with
   | none => (st, "bad-op\tbad-op\tbad-op")
   | some .adopt =>
